@@ -13,8 +13,8 @@ RULE = ("6 valid base modules x every character offset outside comments and outs
         "arguments x 10 fault kinds (stray quote, backslash+alnum, backslash at EOF, unterminated '#[[' / '#[=[', extra "
         "'(' / ')', deleted '(' / ')', bare word), singly and (thorough) in pairs; a mutant is judged only if the "
         "reference tokenizer rejects it and - wherever CMake can see the fault - cmake itself rejects it too.  Oracle: "
-        "Documenter.process() must raise; the CLI must exit non-zero and write no page for the faulty file (single-file "
-        "and recursive mode).  non-trivial = every judged mutant; distinct by mutant text")
+        "Documenter.process() must raise; the CLI must exit non-zero and write no page for the faulty file (single-file, "
+        "directory and recursive directory mode).  non-trivial = every judged mutant; distinct by mutant text")
 
 BASES = {
     "flat_sets": "#[[[\n# First.\n#]]\nset(A 1)\n#[[[\n# Second.\n#]]\nset(B \"two words\")\n#[[[\n# Third.\n#]]\nset(C x y)\n",
@@ -131,8 +131,14 @@ def cli_case(job):
         msgs.append(f"silent-cli: `cminx -r -o out dir` exits 0 although dir/bad.cmake has {kind} at offset {pos}")
     if os.path.exists(os.path.join(root, "out2", "bad.rst")):
         msgs.append(f"silent-cli: `cminx -r -o out dir` wrote bad.rst for {kind} at offset {pos} of {name}")
+    p3 = subprocess.run([common.PYTHON, "-c", code, "-o", os.path.join(root, "out3"), os.path.join(root, "in")],
+                        capture_output=True, text=True, env=env, cwd=root)
+    if p3.returncode == 0:
+        msgs.append(f"silent-cli: `cminx -o out dir` (not recursive) exits 0 although dir/bad.cmake has {kind} at offset {pos}")
+    if os.path.exists(os.path.join(root, "out3", "bad.rst")):
+        msgs.append(f"silent-cli: `cminx -o out dir` (not recursive) wrote bad.rst for {kind} at offset {pos} of {name}")
     shutil.rmtree(root, ignore_errors=True)
-    return {"viol": msgs, "obs": common.digest([p1.returncode, p2.returncode]), "nt": common.digest(text), "n": 2,
+    return {"viol": msgs, "obs": common.digest([p1.returncode, p2.returncode, p3.returncode]), "nt": common.digest(text), "n": 3,
             "cls": f"silent-cli {kind}" if msgs else None, "case": {"name": name, "kind": kind, "pos": pos, "text": text, "cli": True}}
 
 
@@ -178,7 +184,7 @@ def run(ctx):
     for k, lst in sorted(byk.items()):
         picks = {0, len(lst) // 2, len(lst) - 1} if quick else set(range(0, len(lst), max(1, len(lst) // 12)))
         cli += [lst[i] for i in sorted(picks)]
-    ctx.sweep(cli_case, cli, space="CLI subprocess (single file + recursive directory)", selftest=0, chunk=1)
+    ctx.sweep(cli_case, cli, space="CLI subprocess (single file, directory, recursive directory)", selftest=0, chunk=1)
     ctx.cov["bounds"] = {"bases": list(BASES), "fault_kinds": 10, "cli_confirmations": len(cli)}
     ctx.assumptions += ["a mutant that cmake accepts (legacy unquoted forms, faults that re-pair with later text) is not judged",
                         "bad escapes inside function bodies are judged by the manual's rule alone (CMake checks them at execution)"]
